@@ -206,6 +206,12 @@ func runTLCP(cf config, ed edit) outcome {
 		<-donech
 		out.c.status, out.s.status = "failed(timeout)", "failed(timeout)"
 	}
+	if out.c.panic != "" {
+		out.c.status = "panic"
+	}
+	if out.s.panic != "" {
+		out.s.status = "panic"
+	}
 	if out.c.status == "" {
 		out.c.status = classify(cerr, *calerts)
 	}
@@ -283,6 +289,10 @@ func serverHelloSid(n *mnet, dtls bool) string {
 
 // protectedAt: was record idx of direction d written after the sender's ChangeCipherSpec?
 func protectedAt(recs []recInfo, idx int) bool {
+	if idx < len(recs) && recs[idx].dtls {
+		b := recs[idx].raw
+		return len(b) >= 5 && (b[3] != 0 || b[4] != 0) // epoch > 0
+	}
 	for i := 0; i < idx && i < len(recs); i++ {
 		if recs[i].raw[0] == 20 {
 			return true
@@ -335,6 +345,9 @@ func layout(n *mnet, dtls bool) string {
 		prot := false
 		for _, r := range recs {
 			b := r.raw
+			if dtls {
+				prot = len(b) >= 5 && (b[3] != 0 || b[4] != 0)
+			}
 			switch {
 			case prot && b[0] == 22:
 				parts = append(parts, "enc")
@@ -366,12 +379,13 @@ func layout(n *mnet, dtls bool) string {
 // ---------------------------------------------------------------------------- cases
 
 type job struct {
-	cf config
-	ed edit
+	cf   config
+	ed   edit
+	base string // negotiation of the untampered run: vers.suite.alpn.resumed
 }
 
 func (j job) ident() string {
-	s := j.cf.String() + " edit=" + j.ed.kind
+	s := j.cf.String() + " base=" + j.base + " edit=" + j.ed.kind
 	switch j.ed.kind {
 	case "none":
 	case "flip":
@@ -415,6 +429,45 @@ func parseJob(desc string) (job, bool) {
 	return j, j.ed.kind != ""
 }
 
+// negoOf extracts vers.suite.alpn.resumed from a view string.
+func negoOf(view string) string {
+	p := strings.Split(view, ".")
+	if len(p) < 9 {
+		return "-"
+	}
+	alpn := strings.Join(p[3:len(p)-5], ".")
+	return p[0] + "." + p[1] + "." + alpn + "." + p[len(p)-5]
+}
+
+var baseMu sync.Mutex
+var baseCache = map[string]string{}
+
+// baseline runs the untampered handshake of a configuration once and caches its negotiation.
+func baseline(cf config) (string, outcome) {
+	var b outcome
+	if cf.stack == "tlcp" {
+		b = runTLCP(cf, edit{kind: "none"})
+	} else {
+		b = runDTLCP(cf, edit{kind: "none"})
+	}
+	base := "-"
+	if b.c.status == "completed" && b.s.status == "completed" {
+		base = negoOf(b.c.view)
+	}
+	return base, b
+}
+
+func baseFor(cf config) string {
+	baseMu.Lock()
+	defer baseMu.Unlock()
+	if v, ok := baseCache[cf.String()]; ok {
+		return v
+	}
+	v, _ := baseline(cf)
+	baseCache[cf.String()] = v
+	return v
+}
+
 func run(j job) (string, string) {
 	var o outcome
 	switch j.cf.stack {
@@ -433,7 +486,8 @@ func run(j job) (string, string) {
 	if o.c.panic != "" || o.s.panic != "" {
 		pn = 1
 	}
-	obs := fmt.Sprintf("c=%s s=%s stall=%d panic=%d", o.c.status, o.s.status, b2i(o.stalled), pn)
+	obs := fmt.Sprintf("c=%s s=%s both=%d stall=%d panic=%d", o.c.status, o.s.status,
+		b2i(o.c.status == "completed" && o.s.status == "completed"), b2i(o.stalled), pn)
 	if pn == 1 {
 		obs += " panicmsg=" + o.c.panic + "|" + o.s.panic
 	}
@@ -473,13 +527,17 @@ func generate(cf config, base outcome, tier string, rnd *hx.Rand) []job {
 	dtls := cf.stack == "dtlcp"
 	n := base.net
 	masks := []byte{0x01, 0x80, 0xFF}
+	if tier == "thorough" {
+		masks = []byte{0x01, 0x02, 0x04, 0x08, 0x10, 0x20, 0x40, 0x80, 0xFF}
+	}
+	every := tier == "thorough" || !dtls // the stream stack is cheap: every position in both tiers
 	injs := []string{"alertw", "alertf", "hs0", "ccs", "app"}
 	for d := 0; d < 2; d++ {
 		recs := n.seen[d]
 		for i, r := range recs {
 			fm := mapRecord(r.raw, dtls, protectedAt(recs, i), cf.ecdhe())
 			var offs []int
-			if tier == "thorough" {
+			if every {
 				for o := 0; o < len(r.raw); o++ {
 					offs = append(offs, o)
 				}
@@ -488,16 +546,16 @@ func generate(cf config, base outcome, tier string, rnd *hx.Rand) []job {
 			}
 			for _, o := range offs {
 				for _, m := range masks {
-					jobs = append(jobs, job{cf, edit{kind: "flip", dir: d, rec: i, off: o, mask: m}})
+					jobs = append(jobs, job{cf: cf, ed: edit{kind: "flip", dir: d, rec: i, off: o, mask: m}})
 				}
 			}
-			jobs = append(jobs, job{cf, edit{kind: "drop", dir: d, rec: i}})
-			jobs = append(jobs, job{cf, edit{kind: "dup", dir: d, rec: i}})
+			jobs = append(jobs, job{cf: cf, ed: edit{kind: "drop", dir: d, rec: i}})
+			jobs = append(jobs, job{cf: cf, ed: edit{kind: "dup", dir: d, rec: i}})
 			if i+1 < len(recs) {
-				jobs = append(jobs, job{cf, edit{kind: "swap", dir: d, rec: i}})
+				jobs = append(jobs, job{cf: cf, ed: edit{kind: "swap", dir: d, rec: i}})
 			}
 			var toffs []int
-			if tier == "thorough" {
+			if every {
 				for o := 0; o < len(r.raw); o++ {
 					toffs = append(toffs, o)
 				}
@@ -509,13 +567,13 @@ func generate(cf config, base outcome, tier string, rnd *hx.Rand) []job {
 			for _, o := range toffs {
 				if o >= 0 && o < len(r.raw) && !seenT[o] {
 					seenT[o] = true
-					jobs = append(jobs, job{cf, edit{kind: "trunc", dir: d, rec: i, off: o}})
+					jobs = append(jobs, job{cf: cf, ed: edit{kind: "trunc", dir: d, rec: i, off: o}})
 				}
 			}
 		}
 		for at := 0; at <= len(recs); at++ {
 			for _, k := range injs {
-				jobs = append(jobs, job{cf, edit{kind: "inject", dir: d, rec: at, inj: k}})
+				jobs = append(jobs, job{cf: cf, ed: edit{kind: "inject", dir: d, rec: at, inj: k}})
 			}
 		}
 	}
@@ -533,6 +591,7 @@ func main() {
 	if o.Replay != "" {
 		for _, d := range hx.ReplayCases(o.Replay) {
 			if j, ok := parseJob(d); ok {
+				j.base = baseFor(j.cf)
 				jobs = append(jobs, j)
 			}
 		}
@@ -543,19 +602,16 @@ func main() {
 		}
 		for _, st := range stacks {
 			for _, cf := range configs(st) {
-				base := job{cf, edit{kind: "none"}}
-				jobs = append(jobs, base)
-				var b outcome
-				if st == "tlcp" {
-					b = runTLCP(cf, edit{kind: "none"})
-				} else {
-					b = runDTLCP(cf, edit{kind: "none"})
-				}
+				bs, b := baseline(cf)
+				jobs = append(jobs, job{cf: cf, ed: edit{kind: "none"}, base: bs})
 				if b.net == nil || b.c.status != "completed" || b.s.status != "completed" {
 					fmt.Fprintf(os.Stderr, "c03: untampered run of %s failed: c=%s s=%s\n", cf, b.c.status, b.s.status)
 					continue
 				}
-				jobs = append(jobs, generate(cf, b, o.Tier, rnd)...)
+				for _, j := range generate(cf, b, o.Tier, rnd) {
+					j.base = bs
+					jobs = append(jobs, j)
+				}
 			}
 		}
 	}
